@@ -301,9 +301,14 @@ class C20(runner.Check):
     def types(self, tier):
         return TYPES_QUICK if tier == "quick" else TYPES_THOROUGH
 
+    def wrapped_types(self, tier):
+        # quick: the wrappers are exercised on a third of the menu (each costs a full set of compilations)
+        idx = range(len(self.types(tier)))
+        return [ti for ti in idx if tier != "quick" or ti in (3, 5, 9, 11, 12, 14, 16)]
+
     def shards(self, tier):
         out = [(tier, "access", ti) for ti in range(len(self.types(tier)))]
-        out += [(tier, "wrapped", ti) for ti in range(len(self.types(tier)))]
+        out += [(tier, "wrapped", ti) for ti in self.wrapped_types(tier)]
         out += [(tier, "builder", 0)]
         return out
 
@@ -344,7 +349,7 @@ class C20(runner.Check):
         return progs
 
     def _arrays(self, T, tier):
-        N, M, cap = (2, 2, 4) if tier == "quick" else (3, 2, 14)
+        N, M, cap = (2, 2, 3) if tier == "quick" else (3, 2, 14)
         out = list(values.arrays(T, N, M, 5))
         if len(out) > cap:
             out = out[:2] + out[-(cap - 2):]
